@@ -4,14 +4,83 @@ import ast
 from leanlit import *
 
 TARGET = 'Registry'
-SOURCES = ['prometheus_client/registry.py']
+SOURCES = ['prometheus_client/registry.py', 'prometheus_client/metrics.py']
 
 
-def _emit(ok, table, why=''):
+def _is_private_copy(value, src):
+    """`dict(src)` or `dict(src) if src else src` (the falsy original — None or {} — holds nothing to alias)"""
+    u = ast.unparse(value)
+    return u in ('dict(%s)' % src, 'dict(%s) if %s else %s' % (src, src, src), '%s.copy()' % src, '{**%s}' % src)
+
+
+def frame_flags(repo):
+    """-> (flags dict, notes).  Never raises: a shape it cannot read yields False for that flag (the Lean theorem that needs
+    the flag then stops checking and the harness streams of props/c06frame.py look for the failing input)."""
+    flags = {'enumValidatesBeforeRegister': False, 'ctorsRegisterLast': False,
+             'targetInfoStoredCopied': False, 'targetInfoHandedOutCopied': False}
+    notes = []
+    try:
+        rt = parse(repo, SOURCES[0])
+        f = find_func(rt, 'set_target_info', cls='CollectorRegistry')
+        stores = [n for n in ast.walk(f) if isinstance(n, ast.Assign) and any(ast.unparse(t) == 'self._target_info' for t in n.targets)]
+        flags['targetInfoStoredCopied'] = bool(stores) and all(_is_private_copy(n.value, 'labels') for n in stores)
+        g = find_func(rt, 'get_target_info', cls='CollectorRegistry')
+        rets = [n for n in ast.walk(g) if isinstance(n, ast.Return)]
+        m = find_func(rt, '_target_info_metric', cls='CollectorRegistry')
+        bare = [n for n in ast.walk(m) if isinstance(n, ast.Call) and not (isinstance(n.func, ast.Name) and n.func.id == 'dict') for a in list(n.args) + [k.value for k in n.keywords]
+                if ast.unparse(a) == 'self._target_info']
+        flags['targetInfoHandedOutCopied'] = (bool(rets) and all(r.value is not None and _is_private_copy(r.value, 'self._target_info') for r in rets)
+                                              and not bare)
+    except Fail as e:
+        notes.append('target info: %s' % e)
+    try:
+        mt = parse(repo, SOURCES[1])
+        ok_all = True
+        enum_ok = False
+        for cls in [n for n in mt.body if isinstance(n, ast.ClassDef)]:
+            init = [n for n in cls.body if isinstance(n, ast.FunctionDef) and n.name == '__init__']
+            if not init:
+                continue
+            body = init[0].body
+            idx = [i for i, st in enumerate(body) if 'super().__init__(' in ast.unparse(st)]
+            if cls.name == 'MetricWrapperBase':
+                # the base constructor registers in its LAST statement
+                last = ast.unparse(body[-1])
+                if 'registry.register(self)' not in last or any('registry.register(self)' in ast.unparse(st) for st in body[:-1]):
+                    ok_all = False
+                    notes.append('MetricWrapperBase.__init__ does not register in its last statement')
+                continue
+            if not idx:
+                continue
+            after = body[idx[0] + 1:]
+            # after the registering base constructor returned nothing may raise: plain assignments of copies / attribute reads only
+            clean = all(isinstance(st, ast.Assign) and not any(isinstance(x, ast.Raise) for x in ast.walk(st))
+                        and all(isinstance(c.func, ast.Name) and c.func.id in ('list', 'dict', 'tuple') for c in ast.walk(st.value) if isinstance(c, ast.Call))
+                        for st in after)
+            if not clean:
+                ok_all = False
+                notes.append('%s.__init__ can raise after the base constructor registered the metric' % cls.name)
+            if cls.name == 'Enum':
+                enum_ok = clean
+        flags['ctorsRegisterLast'] = ok_all
+        flags['enumValidatesBeforeRegister'] = enum_ok
+    except Fail as e:
+        notes.append('constructors: %s' % e)
+    return flags, notes
+
+
+def _emit(ok, table, why='', flags=None, notes=()):
     out = header(TARGET, SOURCES)
     if not ok:
         out += '-- EXTRACT-FAIL registry._get_names.type_suffixes: %s\n' % why
     out += 'def extractOk : Bool := %s\n' % ('true' if ok else 'false')
+    for n in notes:
+        out += '-- frame flag note: %s\n' % n
+    for k, d in (('enumValidatesBeforeRegister', 'Enum.__init__ rejects its arguments BEFORE the base constructor registers the metric'),
+                 ('ctorsRegisterLast', 'no built-in metric constructor can raise after MetricWrapperBase.__init__ registered it'),
+                 ('targetInfoStoredCopied', 'set_target_info stores a private copy of the caller\'s dict'),
+                 ('targetInfoHandedOutCopied', 'get_target_info / the collected target_info sample hand out copies')):
+        out += '/-- %s -/\ndef %s : Bool := %s\n' % (d, k, 'true' if (flags or {}).get(k) else 'false')
     out += '/-- `type_suffixes` in `CollectorRegistry._get_names`, in source order -/\n'
     out += 'def registrySuffixes : List (List Char × List (List Char)) := [\n'
     out += ',\n'.join('  (%s, %s)' % (chars(k), strlist(v)) for k, v in table)
@@ -66,6 +135,8 @@ def generate(repo):
                 "            result.append(metric.name + suffix)")
         if ast.unparse(lp) != want:
             raise Fail('the loop applying type_suffixes changed: %s' % ast.unparse(lp).replace('\n', ' / ')[:200])
-        return _emit(True, table)
+        fl, notes = frame_flags(repo)
+        return _emit(True, table, flags=fl, notes=notes)
     except Fail as e:
-        return _emit(False, [], str(e))
+        fl, notes = frame_flags(repo)
+        return _emit(False, [], str(e), flags=fl, notes=notes)
